@@ -20,10 +20,11 @@ do WITH a route (`Model/Registry.lean`): node identity distinct from node name, 
 * `convert_resolves`, `convert_never_unknown_transformation` : hence, for every such history, every start
   object that is an instance of the base class and every goal: `convert_to` never raises
   `Unknown transformation` — each step of the returned path resolves to a method.
-* `sites_register_root`       : the registration sites of the CURRENT source that are reachable through the
-  public constructors (`create_station`, `orbit2frame`, `lagrange`, `solarsystem.get_frame`,
-  `jpl.create_frames`, `Center.add_link`), regenerated from the AST on every run, satisfy `registersRoot`
-  (`decide`).  `TopocentricOrientation.__init__` ALONE does not (`Witness/C20.lean`).
+* `sites_register_root`       : EVERY registration site of the CURRENT source (`Center.add_link`, `JplCenter.add_link`,
+  the constructors `TopocentricOrientation`, `LocalOrbitalOrientation`, `LagrangeOrient`, and `create_station`,
+  `orbit2frame`, `lagrange`, `solarsystem.get_frame`, `jpl.create_frames`), regenerated from the AST on every run,
+  satisfies `registersRoot` (`decide`).  The bare `TopocentricOrientation.__init__` did not before the fix of finding
+  C20-topocentric-ctor-instance-only (`Witness/C20.lean`: regression witness).
 * `builtin_links_have_methods`: every link executed at import of `beyond.frames.orient` has a method in the
   class body of `Orientation` (regenerated tables, `decide`).
 * `small_named_forests_exact` (in `Props/C20Named.lean`) : forests on ≤ 3 nodes under every assignment of shared names.
@@ -282,9 +283,11 @@ theorem fresh_names_keep_methods {w : World} {fuel : Nat} (S : Nat → Prop) :
 
 /-! ## the registration sites of the current source (regenerated from the AST on every run) -/
 
-/-- every registration site reachable through the public constructors registers its links on the base class -/
+/-- every registration site of the anchored files (the direct constructors included) registers its links on the base class -/
 theorem sites_register_root :
-    (BeyondVerif.Generated.publicSites.all (fun s => registersRoot s.2)) = true := by decide
+    (BeyondVerif.Generated.publicSites.all (fun s => registersRoot s.2) &&
+      BeyondVerif.Generated.regSites.all (fun s => registersRoot s.2) &&
+      registersRoot BeyondVerif.Generated.siteTopocentricOrientationCtor) = true := by decide
 
 /-- every link executed at import of `beyond.frames.orient` has a method in the class body of `Orientation`
 (in one of the two directions) -/
